@@ -347,8 +347,21 @@ func class(err error) string {
 	if errors.Is(err, net.ErrClosed) {
 		return "opclosed"
 	}
-	if strings.HasPrefix(err.Error(), "unexpected message type: ") {
-		return "badtype:" + strings.TrimPrefix(err.Error(), "unexpected message type: ")
+	// a non-binary message: piko reports it with the offending type in the text.  The wording is
+	// not part of any property: the comparison projects `badtype:N` to `other` on both sides
+	// (checks.d/C07.json), the number is kept for the human reader of a replay only.
+	if i := strings.Index(err.Error(), "message type"); i >= 0 {
+		num := ""
+		for _, r := range err.Error()[i:] {
+			if r >= '0' && r <= '9' {
+				num += string(r)
+			} else if num != "" {
+				break
+			}
+		}
+		if num != "" {
+			return "badtype:" + num
+		}
 	}
 	if err == io.EOF {
 		return "eof"
